@@ -39,6 +39,13 @@ func runC05(c *Collector, r *Rng, thorough bool) {
 		{"DUnprot", "a104d9d9f74101"},                 // 55799 before a governed value
 		{"DUnprot", "a107f6"}, {"DUnprot", "a10780"}, {"DUnprot", "a10781f6"}, // fixed: null / empty / [null] countersignature
 		{"DSign1", "d28440a107f6f64101"},
+		// IV in one bucket, Partial IV in the other, in every structure and layer
+		{"DSign1", "d28444a1054101a1064102f64100"}, {"DSign1", "d28444a1064101a1054102f64100"},
+		{"DSign1U", "8444a1054101a1064102f64100"}, {"DSignature", "8344a1054101a10641024100"},
+		{"DSignMsg", "d8628444a1054101a1064102f6818340a04100"}, {"DSignMsg", "d8628440a0f6818344a1064101a10541024100"},
+		{"DSign1", "d28440a1078344a1054101a10641024100f64100"}, {"DSign1", "d28440a107818344a1054101a10641024100f64100"},
+		// content type / typ text rules
+		{"DProt", "43a11060"}, {"DUnprot", "a11060"}, {"DProt", "43a10360"}, {"DSign1", "d28443a11060a0f64100"},
 	} {
 		b := unhex(cs.hex)
 		d := decodeCase(c, "corpus/"+cs.kind, cs.kind, b)
